@@ -9,6 +9,18 @@ use crate::{
     sim::{TaskEnd, TaskMeta, TaskTag},
 };
 
+pub fn steps_duration(w: &[Step]) -> u64 {
+    w.iter().map(|s| if let Step::Sleep(t) = s { *t as u64 } else { 0 }).sum()
+}
+
+pub fn work_of_case(case: &Case, id: u32) -> Option<&Vec<Step>> {
+    let (c, o) = ((id / 1000) as usize, (id % 1000) as usize);
+    match case.clients.get(c)?.get(o)? {
+        ClientOp::Send { work, .. } | ClientOp::Call { work, .. } | ClientOp::CallDrop { work, .. } => Some(work),
+        _ => None,
+    }
+}
+
 #[derive(Clone, Debug)]
 pub struct OpRec {
     pub client: usize,
@@ -226,7 +238,19 @@ impl<'a> View<'a> {
         for (a, av) in actors.iter_mut().enumerate() {
             let last_stopped = cbs.iter().rev().find(|c| c.actor == a && c.cb == Cb::Stopped);
             av.stopped_exit = last_stopped.and_then(|c| c.exit);
+            // fail_on_timeout: an invocation that needs more than the limit makes the actor fail
+            let timeout_failed = match out.actors.get(a).and_then(|r| r.timeout) {
+                Some((t, true)) => invs.iter().any(|i| {
+                    i.actor == a
+                        && match &i.msg {
+                            MsgRef::Client(id) => work_of_case(case, *id).is_some_and(|w| steps_duration(w) > t as u64),
+                            _ => false,
+                        }
+                }),
+                _ => false,
+            };
             av.graceful = matches!(av.task_end, Some((_, TaskEnd::Done)))
+                && !timeout_failed
                 && av.stopped_exit.is_some()
                 && !out.hist.iter().any(|e| {
                     matches!(&e.kind, EvKind::Note(n) if n.starts_with(&format!("started-err actor={a} ")))
@@ -384,11 +408,7 @@ impl<'a> View<'a> {
     }
 
     pub fn work_of(&self, id: u32) -> Option<&'a Vec<Step>> {
-        let (c, o) = ((id / 1000) as usize, (id % 1000) as usize);
-        match self.case.clients.get(c)?.get(o)? {
-            ClientOp::Send { work, .. } | ClientOp::Call { work, .. } => Some(work),
-            _ => None,
-        }
+        work_of_case(self.case, id)
     }
 
     /// the actor is certainly alive at every stamp < this
